@@ -114,6 +114,9 @@ pub fn check_spec(id: &str) -> Option<CheckSpec> {
       lanes: vec![
         lane("conc/async/liveness", conc("async-live", |p| { p.asyncness = 1; p.timed = false; p.hold_open_pct = 60; }), 300_000, 9_000_000),
         lane("conc/mixed/liveness", conc("mixed-live", |p| { p.asyncness = 2; p.hold_open_pct = 60; }), 300_000, 9_000_000),
+        // several async parties on a tiny multi-consumer queue, half of the operations re-polled while pending: a future
+        // that completes on its own while a notifier has already picked its queued waiter must pass that wake on
+        lane("conc/async/liveness/contended-repolled", conc("async-live-repoll", |p| { p.asyncness = 1; p.timed = false; p.hold_open_pct = 0; p.caps = vec![1, 1, 2]; p.spurious_poll_in = 2; p.flavours = vec![Flavour::MpmcBounded, Flavour::MpmcUnbounded, Flavour::MpscBounded, Flavour::MpmcRendezvous]; }), 300_000, 9_000_000),
         lane("spmc/async/liveness", spmc(true, 1, true, true), 100_000, 3_000_000),
         lane("spmc/mixed/liveness", spmc(true, 2, true, true), 100_000, 3_000_000),
         lane("topic/mixed/liveness", topic(true, 2, true, true, true), 30_000, 1_000_000),
